@@ -919,7 +919,7 @@ end:
 		switch sh := temp.SuffrageHeight(); {
 		case sh == base.NilHeight:
 			continue end
-		case sh > suffrageHeight:
+		case sh != suffrageHeight:
 			continue end
 		}
 
